@@ -523,7 +523,8 @@ pub(crate) fn each1(f: SigNode, mut xs: Value, env: &mut Uiua) -> UiuaResult {
         new_shape.extend_from_slice(eached.shape.row_slice());
         eached.shape = new_shape;
         eached.validate();
-        eached.meta.set_per_meta(per_meta.clone());
+        let per_meta = per_meta.clone().fitting(eached.row_count());
+        eached.meta.set_per_meta(per_meta);
         env.push(eached);
     }
     Ok(())
@@ -555,7 +556,8 @@ fn each2(f: SigNode, mut xs: Value, mut ys: Value, env: &mut Uiua) -> UiuaResult
             })
         })?;
         for mut eached in new_values.into_iter().rev() {
-            eached.meta.set_per_meta(per_meta.clone());
+            let per_meta = per_meta.clone().fitting(eached.row_count());
+            eached.meta.set_per_meta(per_meta);
             env.push(eached);
         }
     }
@@ -614,7 +616,8 @@ fn eachn(f: SigNode, mut args: Vec<Value>, env: &mut Uiua) -> UiuaResult {
         }
         new_shape.extend_from_slice(&eached.shape.row());
         eached.shape = new_shape;
-        eached.meta.set_per_meta(per_meta.clone());
+        let per_meta = per_meta.clone().fitting(eached.row_count());
+        eached.meta.set_per_meta(per_meta);
         env.push(eached);
     }
     Ok(())
@@ -650,7 +653,8 @@ fn collect_outputs(
         } else if is_empty {
             val.pop_row();
         }
-        val.meta.set_per_meta(per_meta.clone());
+        let per_meta = per_meta.clone().fitting(val.row_count());
+        val.meta.set_per_meta(per_meta);
         env.push(val);
     }
     Ok(())
@@ -932,7 +936,8 @@ fn rowsn(f: SigNode, args: Vec<Value>, depth: usize, inv: bool, env: &mut Uiua) 
             rowsed.pop_row();
         }
         rowsed.validate();
-        rowsed.meta.set_per_meta(per_meta.clone());
+        let per_meta = per_meta.clone().fitting(rowsed.row_count());
+        rowsed.meta.set_per_meta(per_meta);
         env.push(rowsed);
     }
     Ok(())
